@@ -239,8 +239,14 @@ func (c *e2eCluster) close() {
 // submit runs one request until it has a definite outcome: "ok" (with the result),
 // "rejected", or "timeout" after all attempts. A retry re-submits the SAME session
 // state, which is what the API prescribes after a timeout.
+// e2eUncertain: set by e2eSubmit when an earlier attempt of the request was
+// submitted and ended without a definite result (timeout, terminated, aborted), so
+// that a copy of it may be in the log. Dropped attempts never reach the log.
+var e2eUncertain bool
+
 func e2eSubmit(attempts int, timeout time.Duration, f func(time.Duration) (*dragonboat.RequestState, error)) (string, sm.Result, int) {
 	tries := 0
+	e2eUncertain = false
 	notReady := time.Now().Add(20 * time.Second) // a host that just restarted refuses requests for a while
 	for a := 0; a < attempts; {
 		rs, err := f(timeout)
@@ -274,6 +280,7 @@ func e2eSubmit(attempts int, timeout time.Duration, f func(time.Duration) (*drag
 			}
 			time.Sleep(20 * time.Millisecond)
 		default: // timeout, terminated, aborted: try again with the same ids
+			e2eUncertain = true
 			time.Sleep(10 * time.Millisecond)
 		}
 	}
@@ -381,9 +388,10 @@ func runE2ECase(line string, obs *vh.LineWriter, st *vh.Stats) {
 			out, _, tries := e2eSubmit(5, 3*time.Second, func(d time.Duration) (*dragonboat.RequestState, error) {
 				return host().ProposeSession(cs, d)
 			})
-			if out == "rejected" && tries > 1 {
-				out = "ok" // the earlier, timed-out copy had registered it
+			if out == "rejected" && e2eUncertain {
+				out = "ok" // the id is fresh: only the earlier, timed-out copy can have registered it
 			}
+			_ = tries
 			if out == "ok" {
 				cs.PrepareForPropose()
 				sessions[arg(1)] = &e2eSession{cs: cs, results: map[uint64]string{}}
@@ -467,12 +475,19 @@ func runE2ECase(line string, obs *vh.LineWriter, st *vh.Stats) {
 				continue
 			}
 			s.closed = true
+			// was the session registered when the request was made? (decides what a Rejected
+			// answer to a RESUBMITTED unregistration means)
+			present := false
+			if _, err := e2eRead(host()); err == nil {
+				_, tbl, _ := dragonboat.VerifC05SessionDump(host(), e2eShard)
+				present = findView(tbl, s.cs.ClientID)
+			}
 			s.cs.PrepareForUnregister()
-			out, _, tries := e2eSubmit(5, 3*time.Second, func(d time.Duration) (*dragonboat.RequestState, error) {
+			out, _, _ := e2eSubmit(5, 3*time.Second, func(d time.Duration) (*dragonboat.RequestState, error) {
 				return host().ProposeSession(s.cs, d)
 			})
-			if out == "rejected" && tries > 1 {
-				out = "ok"
+			if out == "rejected" && e2eUncertain && present {
+				out = "ok" // the earlier copy, whose answer was lost, had removed it
 			}
 			obs.Printf("%s %d CLOSE %s\n", id, k, out)
 		case "READ":
